@@ -67,6 +67,17 @@ func (o *overlayer) overlayField(base, overlay reflect.Value) error {
 			//  we're done here
 			return nil
 		}
+		if base.Type().Elem().Kind() != reflect.Struct {
+			// a user-declared pointer to a non-struct type (e.g. *int), which
+			// pointerification leaves as-is: the (already deep-copied) overlay
+			// pointer replaces the one from the lower layers.
+			if !overlay.Type().AssignableTo(base.Type()) {
+				return fmt.Errorf("type %s is not assignable to %s",
+					overlay.Type(), base.Type())
+			}
+			base.Set(overlay)
+			return nil
+		}
 		// both pointers are non-nil, and it's a pointerified struct.
 		return o.overlayStruct(base.Elem(), overlay.Elem())
 	case reflect.Interface:
